@@ -55,7 +55,10 @@ def prepare(repo='/repo'):
                 'log = "0.4"\n\n[profile.dev]\nopt-level = 1\ndebug-assertions = true\noverflow-checks = true\n')
     with open(os.path.join(drv, 'src', 'main.rs'), 'w') as f:
         f.write('include!("%s");\n' % os.path.join(VERIF, 'native', 'main.rs'))
-    shutil.copy(os.path.join(repo, 'Cargo.lock'), os.path.join(drv, 'Cargo.lock'))
+    lock = os.path.join(repo, 'Cargo.lock')
+    if not os.path.exists(lock):
+        lock = '/repo/Cargo.lock'
+    shutil.copy(lock, os.path.join(drv, 'Cargo.lock'))
     return drv
 
 
@@ -103,5 +106,5 @@ def run(oracle, args=None, repo='/repo', seed=0, timeout=600):
 
 
 if __name__ == '__main__':
-    r = run(sys.argv[1], sys.argv[2:])
+    r = run(sys.argv[1], sys.argv[2:], repo=os.environ.get('VERIF_REPO', '/repo'))
     print(json.dumps(r, indent=1))
